@@ -118,10 +118,31 @@ theorem C07_closed_directiveUses {sd : SchemaDoc} {s : Schema} (h : load sd = .o
   · intro p hp a ha
     exact directiveIs_of_pass (validateArgs_pass (F.dirDefOK p hp) a ha).2
 
-/-- needs the introspection types (prelude) — and that the query root is not an input object, because
-    the loader appends the output-typed introspection fields to whatever type is the query root -/
+/-- **C07_root_types_are_objects**: the root operation types of every loaded schema — declared by a
+    schema definition / extension or inferred from the default names — are object types (GraphQL §3.3.1).
+    Since the repair "a root operation type must be an object type"; before it `scalar Query`,
+    `input Query { foo: String }`, `schema { query: Int }` and `interface Subscription { … }` loaded. -/
+theorem C07_root_types_are_objects {sd : SchemaDoc} {s : Schema} (h : load sd = .ok s) :
+    Spec.rootTypesAreObjects s = true :=
+  loaded_rootTypesAreObjects h
+
+/-- in particular the query root, which receives `__schema` / `__type`, is not an input object -/
+theorem C07_query_root_not_input {sd : SchemaDoc} {s : Schema} (h : load sd = .ok s) : QueryRootNotInput s := by
+  have hr := loaded_rootTypesAreObjects h
+  have hk := C07_closed_keys h
+  intro q d hq hmem hkind
+  simp only [Spec.rootTypesAreObjects, List.all_cons, List.all_nil, Bool.and_true, Bool.and_eq_true, hq] at hr
+  have h1 := hr.1
+  have hn : (s.types.map Prod.fst).Nodup := nodup_of_pairwiseDistinct hk.2.2.1
+  simp only [Spec.typeIs, lookup_of_mem_nodup hn hmem, hkind] at h1
+  cases h1
+
+/-- needs the introspection types (prelude).  (The former hypothesis `QueryRootNotInput` is now a
+    theorem, `C07_query_root_not_input`: the loader used to append the output-typed introspection fields
+    to whatever type was the query root.) -/
 theorem C07_closed_fieldTypes {sd : SchemaDoc} {s : Schema} (h : load sd = .ok s)
-    (hp : IntrospectionTypesDeclared sd) (hq : QueryRootNotInput s) : Spec.ClosedFieldTypes s := by
+    (hp : IntrospectionTypesDeclared sd) : Spec.ClosedFieldTypes s := by
+  have hq := C07_query_root_not_input h
   obtain ⟨st, r1, d1, F⟩ := loaded_facts h
   have hq' := hq
   rw [F.eq] at hq' ⊢
@@ -185,11 +206,11 @@ theorem C07_closed_argTypes {sd : SchemaDoc} {s : Schema} (h : load sd = .ok s)
 /-- **C07_loaded_closed** : whatever `load` returns is closed — every name reachable from a field
     type, argument type, interface list, union member list, possible-types / implements entry,
     directive application or root resolves to a definition of the right kind, and no relation holds a
-    nil entry.  Hypotheses: the introspection types are declared (the prelude is part of the
-    document) and the query root is not an input object (see the counterexample below). -/
+    nil entry.  Hypothesis: the introspection types are declared (the prelude is part of the document).
+    (Formerly also "the query root is not an input object": now enforced by the loader.) -/
 theorem C07_loaded_closed {sd : SchemaDoc} {s : Schema} (h : load sd = .ok s)
-    (hp : IntrospectionTypesDeclared sd) (hq : QueryRootNotInput s) : Spec.Closed s :=
-  { fieldTypes := C07_closed_fieldTypes h hp hq, argTypes := C07_closed_argTypes h hp,
+    (hp : IntrospectionTypesDeclared sd) : Spec.Closed s :=
+  { fieldTypes := C07_closed_fieldTypes h hp, argTypes := C07_closed_argTypes h hp,
     directiveArgTypes := C07_closed_directiveArgTypes h, interfaces := C07_closed_interfaces h,
     unionMembers := C07_closed_unionMembers h, possibleTypes := C07_closed_possibleTypes h,
     implements := C07_closed_implements h, roots := C07_closed_roots h,
@@ -228,15 +249,25 @@ example : (load Examples.okDoc).isOk = true := by decide
 
 /- ------------------------------------------------------------------ the input-object query root -/
 
-/-- `input Query { foo: String }` loads, and the loaded schema has the output-typed fields
-    `__schema: __Schema!`, `__type: __Type` inside an input object: `ClosedFieldTypes` fails without the
-    hypothesis `QueryRootNotInput` (the loader does not check the kind of root types) -/
-theorem C07_closed_fieldTypes_counterexample :
-    ∃ sd s, load sd = .ok s ∧ ¬ Spec.ClosedFieldTypes s := by
-  refine ⟨Examples.inputQueryDoc, mkSchema Examples.inputQueryDoc
-    (match buildState Examples.inputQueryDoc with | .ok st => st | .error _ => default) noRoots [], ?_, ?_⟩
-  · rfl
-  · decide
+/-- the former counterexample of `ClosedFieldTypes`, kernel-checked: `input Query { foo: String }` is
+    rejected with "Schema root query must be an object type, Query is a INPUT_OBJECT." at the position of
+    the definition of `Query` (before the repair it loaded and received `__schema` / `__type`) -/
+theorem C07_input_query_root_rejected :
+    ∃ e, load Examples.inputQueryDoc = .err e ∧
+      e.msg = Msg.rootNotObject opQuery (str "Query") .inputObject ∧ (e.line, e.src) = (1, 1) := by
+  have key : (match load Examples.inputQueryDoc with
+      | .err e => decide (e.msg = Msg.rootNotObject opQuery (str "Query") .inputObject ∧ (e.line, e.src) = (1, 1))
+      | _ => false) = true := by decide
+  cases h : load Examples.inputQueryDoc with
+  | err e => rw [h] at key; exact ⟨e, rfl, of_decide_eq_true key⟩
+  | ok s => rw [h] at key; cases key
+  | panic => rw [h] at key; cases key
+
+/-- … and the specification rejects it by the clause `rootTypesAreObjects` alone -/
+theorem C07_input_query_root_illformed :
+    Spec.rootTypesAreObjectsDoc Examples.inputQueryDoc = false ∧
+    (Spec.clauses Examples.inputQueryDoc).filter (fun c => !c.2) = [("S.rootTypesAreObjects", false)] := by
+  refine ⟨by decide, by decide⟩
 
 /- ------------------------------------------------------------------ relations are exact -/
 
@@ -351,16 +382,6 @@ theorem C07_relations_exact {sd : SchemaDoc} {s : Schema} (h : load sd = .ok s) 
   { possibleAbstractExact := C07_relations_possible_abstract h, possibleObjectSelf := C07_relations_possible_object h,
     possibleNoOtherKeys := C07_relations_possible_keys h, implementsExact := C07_relations_implements h }
 
-/-- the former counterexample (`input Query { foo: String }`) now has exact relations (kernel-checked) -/
-theorem C07_relations_exact_former_counterexample :
-    ∃ s, load Examples.inputQueryDoc = .ok s ∧ Spec.RelationsExact s := by
-  cases h : load Examples.inputQueryDoc with
-  | ok s => exact ⟨s, rfl, C07_relations_exact h⟩
-  | err e => have : (load Examples.inputQueryDoc).isOk = true := by decide
-             rw [h] at this; simp [LoadResult.isOk] at this
-  | panic => have : (load Examples.inputQueryDoc).isOk = true := by decide
-             rw [h] at this; simp [LoadResult.isOk] at this
-
 /- ------------------------------------------------------------------ introspection fields, built-ins -/
 
 /-- **C07_introspection_fields**: the query root of every loaded schema has exactly one field
@@ -461,10 +482,11 @@ theorem C07_load_iff_wellformed_counterexample_directive :
     positioned field types, interfaces that are interfaces, union members that are objects, existing
     roots, transitively declared interfaces, no empty object/interface/input/enum, no reserved type,
     field or ENUM VALUE names, at most one `schema` block, every root operation type given at most ONCE,
-    extensions of the base's kind, and no enum value named `true`/`false`/`null`.
+    extensions of the base's kind, no enum value named `true`/`false`/`null`, and OBJECT types as root
+    operation types (declared or inferred).
     (`hext`: extensions are not `builtIn` — the prelude has none.)
     `implementsFieldsOK` is `C07_load_sound_implementsFields`, the directive clauses are
-    `C07_load_sound_directives`, all 26 clauses together `C07_load_sound` (below). -/
+    `C07_load_sound_directives`, all 27 clauses together `C07_load_sound` (below). -/
 theorem C07_load_sound_partial {sd : SchemaDoc} {s : Schema} (h : load sd = .ok s)
     (hext : ∀ e ∈ sd.extensions, e.builtIn = false) : SoundClauses sd :=
   load_sound h hext
@@ -488,7 +510,7 @@ example : NamesLexical Examples.implOkDoc ∧ (load Examples.implOkDoc).isOk = t
 
 /-- **C07_load_sound — the ⇒ direction of "loads iff well formed"**, for documents in which no
     directive name is declared twice: every document the loader accepts satisfies EVERY clause of
-    `Spec.WellFormed` (all 26).  The hypothesis `DirectiveNamesDistinct` cannot be dropped: a builtin
+    `Spec.WellFormed` (all 27, including `rootTypesAreObjects` since the repair of the root kinds).  The hypothesis `DirectiveNamesDistinct` cannot be dropped: a builtin
     directive redeclared more than once is accepted with the last declaration in force (finding R7b,
     `C07_load_iff_wellformed_counterexample_directive`), and the clauses then read another definition
     than the loader.  (`hext`, `NamesLexical`: guarantees of the prelude and of the lexer.) -/
@@ -514,7 +536,7 @@ example : Spec.WellFormed Examples.okDoc ∧ (load Examples.okDoc).isOk = true :
 /- ------------------------------------------------------------------ completeness: WellFormed ⇒ loads -/
 
 /-- **C07_load_complete — the ⇐ direction of "loads iff well formed"**: every merged document whose
-    merged type system satisfies the 26 clauses of `Spec.WellFormed` is accepted by the loader.
+    merged type system satisfies the 27 clauses of `Spec.WellFormed` is accepted by the loader.
     No clause is missing from the specification: each error site of validator/schema.go is excluded by
     one clause (the lemmas `load_<step>_ok_of_wf` in GqlProofs/Schema/Complete*.lean name the Go check and
     the clause).  `MergedDoc sd` says that `sd` has the SHAPE `parser.ParseSchemas(prelude, inputs…)`
